@@ -8,7 +8,8 @@ SEQ_NOTE = ("Trusted: the reference model in checks/<id>.py (plain list/dict/set
             "(all attributes of the object graph, identities numbered by first visit), CPython. Bounds (alphabet, "
             "capacity, depth) are stated in the evidence; nothing beyond them is claimed.")
 A_NOTE = ("Trusted: the virtual threading/multiprocessing layer mc/vmp.py (textbook semantics, compared with the real primitives by "
-          "conformance/primitives.py), synchronous queue hand-off, fork-like process start, no pickling; the scheduler and the "
+          "conformance/primitives.py): queue hand-off synchronous unless a driver opts into delayed delivery, items pickled across processes, "
+          "fork-like process start (start() itself a scheduling point), timers expire when nothing else can move or as a deviation; the scheduler and the "
           "happens-before state cache (mc/vsched.py; equal fingerprints = same Mazurkiewicz trace prefix). The real source file of "
           "/repo is executed unmodified. Bounds per driver (preemptions, environment deviations, caps) are in the evidence.")
 A_TECH = "stateless model checking of the real source under a controlled scheduler: all schedules up to a preemption bound (unbounded for the small drivers), happens-before state cache"
@@ -27,11 +28,12 @@ CHECKS = {
                   "1-2 workers) under all schedules within the bound; per-call output must equal the fresh-pool expectation, nothing leaks between calls, no starvation "
                   "(consumer blocked, all workers and the replace thread finished)."),
  "C04": dict(engine="vsched", technique=A_TECH, ref="5/C04", note=A_NOTE,
-             text="Same executions plus fault runs (begin() raises in worker w; functor raises at item j): per-worker event log must match begin, begin-returned, item*, end exactly once each "
+             text="Same executions plus fault runs (begin() raises in worker w; functor raises at item j; also with an exception that is not an Exception) and until_all_ready() "
+                  "before / between / after calls and between the results of a running call: per-worker event log must match begin, begin-returned, item*, end exactly once each "
                   "in that order (also on faults), chunks per worker <= quota, until_all_ready() returns happens-after every begin (vector clocks), nothing left running after __exit__."),
- "C05": dict(engine="vsched", technique=A_TECH + "; spurious Empty of multiprocessing.Queue as bounded environment deviation", ref="5/C05", note=A_NOTE,
+ "C05": dict(engine="vsched", technique=A_TECH + "; spurious Empty of multiprocessing.Queue, full result pipe at process exit and early expiry of timed waits as bounded environment deviations", ref="5/C05", note=A_NOTE,
              text="All schedules within <=3 (quick) / <=4 preemptions and <=1 spurious Empty of the real pools.py / maps.py / workers.py (FunctorMap with 1-3 workers, chunk sizes, "
-                  "empty and lazy input, two and three consecutive calls; mul_p_map with 1-2 workers incl. consecutive calls on the shared class-level queues); oracle: result == map in order, "
+                  "empty and lazy input, None / falsy items, two and three consecutive calls; mul_p_map with 1-2 workers incl. consecutive calls on the shared class-level queues); oracle: result == map in order, "
                   "termination, queues empty afterwards, no process left."),
  "C14": dict(engine="vsched", technique=A_TECH + "; oracles evaluated on the happens-before trace (vector clocks)", ref="5/C14", note=A_NOTE + " Real files in /dev/shm; print+flush of a line modelled as one atomic write.",
              text="The real storage.py with Manager lists / Value / RLock virtual and real files: two writer processes + reader (process or parent) over ids {0,1,2} in sharp shapes (gaps, reversed, "
@@ -41,7 +43,7 @@ CHECKS = {
  "C18": dict(engine="xproc", technique="stateless model checking over real fork()ed processes: all interleavings of the announced file operations (2 processes), preemption-bounded (3+)",
              ref="5/C18", note="Trusted: the pipe-driven scheduler mc/xproc.py and the proxies installed by shadowing files.open / files.mmap (they delegate to the real file / mmap objects); the OS.",
              text="Real fork()ed processes sharing one opened RandomLineAccessFile / MemoryMappedRandomLineAccessFile / MapAccessFile (5 lines x 6 kB): every interleaving of open/close/seek/"
-                  "readline of parent + 1 child (all), parent + 2 children (<=2 quick / <=3 preemptions), grandchild and 3-read sequences (thorough); every read of every process must equal the reference line."),
+                  "readline of parent + 1 child (all), parent + 2 children (<=2 quick / <=3 preemptions), grandchildren of an idle and of a reading child, 3-read sequences (thorough); every read of every process must equal the reference line."),
  "C06": dict(engine="seqmc", technique="explicit-state exploration of the real object vs a nondeterministic ordered-dict reference (whole reachable graph per capacity)",
              text="Whole reachable state graph of the real LRUCache for capacities 1-3 (quick) / 1-4, keys {0..c}, 2 values, under the full MutableMapping menu (store, lookup, delete, in, len, "
                   "views, get, pop, popitem, clear, update, setdefault, ==); reference = set of possible ordered dicts (latitude for `in`, popitem, view look-ups); every library call under a "
